@@ -902,6 +902,9 @@ class t2listing(object):
                 next_tablename = self.next_tablename(last_tablename)
                 if next_tablename:
                     self.skip_to_table(next_tablename, last_tablename, 1)
+                    # now at the start of that table, which is read next:
+                    tablename = next_tablename
+                    continue
             last_tablename = tablename
             tablename = self.next_table()
 
